@@ -493,12 +493,12 @@ Proof.
       * destruct (runE f r1 ((skipn n c, e) :: rest)) as [os1 r2] eqn:Erun.
         injection H as <- <-.
         assert (Hf' : run_fuel (map fst ((skipn n c, e) :: rest)) <= f).
-        { cbn [map fst]. rewrite run_fuel_cons, skipn_length. unfold n in *. lia. }
+        { cbn [map fst]. rewrite run_fuel_cons, skipn_length. unfold n in *. clear - Hf Hsp Hlt. clearbody sp. unfold bytes in *. lia. }
         pose proof (IH _ _ _ _ Hinv1 Hf' Erun) as HI.
         cbn [map snd filter] in *. cbn [nonnil N.eqb negb]. exact HI.
       * destruct (runE f r1 rest) as [os1 r2] eqn:Erun.
         injection H as <- <-.
-        assert (Hf' : run_fuel (map fst rest) <= f) by (unfold n in *; lia).
+        assert (Hf' : run_fuel (map fst rest) <= f) by (clear - Hf; lia).
         pose proof (IH _ _ _ _ Hinv1 Hf' Erun) as HI.
         cbn [map snd filter]. rewrite HI. reflexivity.
 Qed.
